@@ -195,7 +195,7 @@ func TestC08(t *testing.T) {
 	evid.Main(t, "C08", func(rec *evid.Rec) {
 		rec.Rule("whole games (root + playout history, then up to 24 (quick) / 60 (thorough) engine moves) with drawn per-move limits (depth 1..10, soft nodes, hard nodes); three engine instances per game whose tables carry over: A and A' get identical requests and run CONCURRENTLY on separate goroutines while GOMAXPROCS busy goroutines load the machine (thorough: race detector on); B gets WithNodes(N_A) whenever A's search ended at its soft limit after N_A nodes, otherwise the same request. Oracle: A == A' in score, move, ponder, node count and every info line (time field masked); B == A likewise (its single trailing abort line excepted) on this and all later moves; Counters.Nodes <= hard budget always. The replay clause is judged only when A returned a move. Non-trivial = search on a warmed table with > 500 nodes; distinct by (game prefix, table, limits)")
 		rec.Assume("SoftTime is not used: wall-clock limits are non-deterministic by design and outside this property")
-		rec.Rapid(t, "game", evid.Pick(500, 8000), func(t *rapid.T) {
+		rec.Rapid(t, "game", evid.Pick(2500, 8000), func(t *rapid.T) {
 			root, _ := gen.Root(t)
 			if gen.Chance(t, 1, 3, "startpos") {
 				root = refchess.MustFEN(gen.StartFEN)
